@@ -581,3 +581,119 @@ pub fn replay(prop: &dyn Prop, path: &str, json_out: bool) -> i32 {
   }
   if o.verdict == Verdict::Violated { 1 } else { 0 }
 }
+
+// ---------------------------------------------------------------------------------------------
+// Miri stage: the kernel-level monitor of /verif/miri (crate `mk`) run under `cargo +nightly miri run`
+// in parallel shards. Each kernel case is judged by mk's value oracles; a shard that dies inside a case
+// (between its `B` and `E` lines) with a Miri report on stderr is an undefined-behaviour observation for that case.
+
+fn miri_cmd(verif: &str) -> std::process::Command {
+  // VERIF_MIRI_DIR: a copy of the crate bound to another tree (evaluation of seeded changes in scratch worktrees)
+  let dir = std::env::var("VERIF_MIRI_DIR").unwrap_or_else(|_| format!("{}/miri", verif));
+  let tgt = if std::env::var("VERIF_MIRI_DIR").is_ok() { format!("{}/target", dir) } else { format!("{}/target/miri", verif) };
+  let mut c = std::process::Command::new("cargo");
+  c.args(["+nightly", "miri", "run", "--quiet", "--manifest-path", &format!("{}/Cargo.toml", dir), "--"]);
+  c.current_dir(&dir);
+  c.env("CARGO_TARGET_DIR", tgt).env("CARGO_NET_OFFLINE", "true").env("MIRIFLAGS", "-Zmiri-ignore-leaks");
+  c.env_remove("RUSTFLAGS").env_remove("RUSTC_BOOTSTRAP").env_remove("CARGO_ENCODED_RUSTFLAGS");
+  c
+}
+
+/// value-free class of a Miri report
+fn miri_class(stderr: &str) -> (Verdict, String) {
+  if let Some(p) = stderr.find("Undefined Behavior:") {
+    let line = stderr[p + "Undefined Behavior:".len()..].lines().next().unwrap_or("").trim();
+    let mut norm = String::new();
+    let mut prev_hash = false;
+    for ch in line.chars() { if ch.is_ascii_digit() || (prev_hash && ch.is_ascii_hexdigit()) { if !prev_hash { norm.push('#'); prev_hash = true; } } else { prev_hash = false; norm.push(ch); } }
+    let site = stderr[p..].lines().find(|l| l.trim_start().starts_with("-->")).map(|l| l.trim().trim_start_matches("-->").trim().rsplit('/').next().unwrap_or("").split(':').next().unwrap_or("").to_string()).unwrap_or_default();
+    return (Verdict::Violated, format!("miri-ub:{}:{}", norm.chars().take(70).collect::<String>().trim(), site));
+  }
+  if stderr.contains("unsupported operation") { return (Verdict::Inconclusive, "miri-unsupported-operation".into()); }
+  if stderr.contains("the evaluated program aborted") || stderr.contains("abnormal termination") { return (Verdict::Violated, "abort:miri:kernel-aborted".into()); }
+  if stderr.contains("stack overflow") || stderr.contains("reached the configured maximum number of stack frames") { return (Verdict::Violated, "abort:miri:stack-overflow".into()); }
+  (Verdict::Inconclusive, "miri-shard-died".into())
+}
+
+fn miri_outcome(line_json: &str, prop: &str, tier: Tier, seed: u64) -> Option<(Case, Outcome)> {
+  let v: J = serde_json::from_str(line_json).ok()?;
+  let id = v["id"].as_str()?.to_string();
+  let case = Case { id: format!("miri;{}", id), cell: v["cell"].as_str()?.to_string(), input: json!({"stage": "miri", "prop": prop, "tier": tier.name(), "seed": seed, "kernel_case": id}) };
+  let mut o = match v["verdict"].as_str()? { "violated" => Outcome::violated(v["class"].as_str().unwrap_or(""), v["detail"].as_str().unwrap_or("").to_string()), _ => Outcome::held() };
+  o.nontrivial = v["nontrivial"].as_bool().unwrap_or(true);
+  o.detail = v["detail"].as_str().unwrap_or("").to_string();
+  for t in v["tags"].as_array().cloned().unwrap_or_default() { if let Some(t) = t.as_str() { o.tags.push(format!("miri:{}", t)); } }
+  o.tags.push("miri:case-ran-under-miri".into());
+  Some((case, o))
+}
+
+pub fn miri_stage(prop: &str, tier: Tier, seed: u64, stride: usize) -> Vec<(Case, Outcome)> {
+  let verif = crate::corpus::verif_dir();
+  let stage_case = |what: &str| Case { id: format!("miri;{}", what), cell: "stage=miri;fam=setup".into(), input: json!({"stage": "miri", "prop": prop, "tier": tier.name(), "seed": seed}) };
+  if std::env::var("VERIF_NO_MIRI").is_ok() { return vec![(stage_case("disabled"), Outcome::inconclusive("miri-disabled-by-env", String::new()))]; }
+  let _ = std::fs::copy("/repo/Cargo.lock", format!("{}/miri/Cargo.lock.repo", verif));
+  // 1. build (serial) and smoke run
+  let t0 = Instant::now();
+  let b = miri_cmd(&verif).arg("noop").output();
+  match &b { Ok(o) if o.status.success() && String::from_utf8_lossy(&o.stdout).contains("noop") => {}
+    Ok(o) => return vec![(stage_case("build"), Outcome::inconclusive("miri-build-failed", String::from_utf8_lossy(&o.stderr).chars().rev().take(1500).collect::<String>().chars().rev().collect()))],
+    Err(e) => return vec![(stage_case("build"), Outcome::inconclusive("miri-unavailable", format!("{}", e)))] }
+  let build_s = t0.elapsed().as_secs_f64();
+  let count: usize = miri_cmd(&verif).args([prop, tier.name(), &seed.to_string(), "0", "0", "0", &stride.to_string()]).output().ok().and_then(|o| String::from_utf8_lossy(&o.stdout).lines().find_map(|l| l.strip_prefix("COUNT ").and_then(|n| n.trim().parse().ok()))).unwrap_or(0);
+  if count == 0 { return vec![(stage_case("count"), Outcome::inconclusive("miri-no-cases", String::new()))]; }
+  let nsh = std::thread::available_parallelism().map(|n| n.get()).unwrap_or(8).min(count).max(1);
+  let deadline = Instant::now() + if tier == Tier::Quick { Duration::from_secs(1200) } else { Duration::from_secs(3 * 3600) };
+  let mut handles = Vec::new();
+  for shard in 0..nsh {
+    let (verif, prop) = (verif.clone(), prop.to_string());
+    handles.push(std::thread::spawn(move || {
+      let mut res: Vec<(Case, Outcome)> = Vec::new();
+      let mut start = 0usize;
+      let mut restarts = 0;
+      loop {
+        if Instant::now() > deadline { res.push((Case { id: format!("miri;shard{}-timeout", shard), cell: "stage=miri;fam=setup".into(), input: json!({}) }, Outcome::inconclusive("miri-stage-timeout", String::new()))); break; }
+        let out = miri_cmd(&verif).args([&prop, tier.name(), &seed.to_string(), &shard.to_string(), &nsh.to_string(), &start.to_string(), &stride.to_string()]).output();
+        let out = match out { Ok(o) => o, Err(e) => { res.push((Case { id: format!("miri;shard{}", shard), cell: "stage=miri;fam=setup".into(), input: json!({}) }, Outcome::inconclusive("miri-unavailable", format!("{}", e)))); break; } };
+        let so = String::from_utf8_lossy(&out.stdout).to_string();
+        let se = String::from_utf8_lossy(&out.stderr).to_string();
+        let mut open: Option<(usize, String)> = None;
+        let mut done = false;
+        for l in so.lines() {
+          if let Some(rest) = l.strip_prefix("B ") { let mut it = rest.splitn(2, ' '); let i = it.next().and_then(|x| x.parse().ok()).unwrap_or(0); open = Some((i, it.next().unwrap_or("").to_string())); }
+          else if let Some(rest) = l.strip_prefix("E ") { let mut it = rest.splitn(2, ' '); let _ = it.next(); if let Some(co) = miri_outcome(it.next().unwrap_or(""), &prop, tier, seed) { res.push(co); } open = None; }
+          else if l.starts_with("DONE") { done = true; }
+        }
+        if done && open.is_none() { break; }
+        match open {
+          Some((i, id)) => {
+            let (v, class) = miri_class(&se);
+            let cell = format!("stage=miri;fam={};fn={}", id.split(';').next().unwrap_or(""), id.split(';').nth(1).unwrap_or(""));
+            let case = Case { id: format!("miri;{}", id), cell, input: json!({"stage": "miri", "prop": prop, "tier": tier.name(), "seed": seed, "kernel_case": id}) };
+            let detail: String = se.lines().filter(|l| !l.trim().is_empty()).take(40).collect::<Vec<_>>().join("\n").chars().take(2500).collect();
+            res.push((case, if v == Verdict::Violated { Outcome::violated(&class, detail) } else { Outcome::inconclusive(&class, detail) }));
+            start = i + 1; restarts += 1;
+            if restarts > 200 { break; }
+          }
+          None => { res.push((Case { id: format!("miri;shard{}", shard), cell: "stage=miri;fam=setup".into(), input: json!({}) }, Outcome::inconclusive("miri-shard-died", se.chars().take(800).collect()))); break; }
+        }
+      }
+      res
+    }));
+  }
+  let mut all = Vec::new();
+  for h in handles { if let Ok(r) = h.join() { all.extend(r); } }
+  let ran = all.iter().filter(|(_, o)| o.tags.iter().any(|t| t == "miri:case-ran-under-miri")).count();
+  all.push((stage_case("summary"), if ran == 0 { Outcome::inconclusive("miri-no-case-ran", String::new()) } else { Outcome::trivial().tag("miri:stage-completed").num("miri_cases_ran", ran as f64).num("miri_cases_planned", count as f64).num("miri_build_s", build_s).num("miri_shards", nsh as f64) }));
+  all
+}
+
+/// re-run one kernel case of the Miri stage (replay of a witness)
+pub fn miri_run_one(case: &Case) -> Outcome {
+  let verif = crate::corpus::verif_dir();
+  let (prop, tier, seed, id) = (case.input["prop"].as_str().unwrap_or("all"), case.input["tier"].as_str().unwrap_or("quick"), case.input["seed"].as_u64().unwrap_or(0), case.input["kernel_case"].as_str().unwrap_or(""));
+  let out = match miri_cmd(&verif).args(["one", prop, tier, &seed.to_string(), id]).output() { Ok(o) => o, Err(e) => return Outcome::inconclusive("miri-unavailable", format!("{}", e)) };
+  let so = String::from_utf8_lossy(&out.stdout).to_string();
+  for l in so.lines() { if let Some(rest) = l.strip_prefix("E ") { if let Some((_, o)) = miri_outcome(rest.splitn(2, ' ').nth(1).unwrap_or(""), prop, Tier::parse(tier), seed) { return o; } } }
+  if so.contains("B ") { let se = String::from_utf8_lossy(&out.stderr).to_string(); let (v, class) = miri_class(&se); let d: String = se.chars().take(2500).collect(); return if v == Verdict::Violated { Outcome::violated(&class, d) } else { Outcome::inconclusive(&class, d) }; }
+  Outcome::inconclusive("miri-case-not-found", so.chars().take(300).collect())
+}
